@@ -344,6 +344,30 @@ def r35x(repo, sink):
                            f"{got[1].fields['grid'] if got[0] == 'ret' and isinstance(got[1], XInfo) else None!r}")
             if ok:
                 _data_path(repo, sink, cname, it, ad, gd, key, "own-output-spec", "src", M_src, "user-out", got[1].fields["mask"], None)
+            # ---------------------------------------------------------------- a second target whose equal grid is laid out differently
+            req, src, gq, gs = infos(req_mask=NOMASK, src_mask=NOMASK)
+            it, ad, got = exchange(repo, cname, {}, req, src)
+            if got[0] == "ret" and isinstance(got[1], XInfo):
+                g2 = grid("req")  # compares equal to the first target's grid (equality ignores the flattening order)
+                g2.fields.update(data_points=Sym("PTS", "req-2"), order=Sym("ORDER", "req-2"), data_shape=Sym("SHAPE", "req-2"), data_axes=Sym("AXES", "req-2"))
+                req2 = xinfo("req2", g2, Sym("T", "req"), Sym("U", "req"), mask=NOMASK)
+                f_gi = repo.resolve(cls, "get_info", "method")
+                try:
+                    got2 = ("ret", it.run(f_gi, [req2], self_obj=ad))
+                except Raised as r:
+                    got2 = ("raise", r.name)
+                if got2[0] == "raise":
+                    sink.check(got2[1] == "FinamMetaDataError", "R35", key("second-target"), gi, ok="a second target with an equal grid in another layout is refused",
+                               bad=f"second target: get_info raises {got2[1]}")
+                else:
+                    g_ann = got2[1].fields.get("grid") if isinstance(got2[1], XInfo) else None
+                    lay = lambda g: g.fields.get("order") if isinstance(g, Obj) else None  # noqa: E731
+                    if lay(g_ann) != lay(got[1].fields["grid"]):
+                        sink.bad("R35", key("second-target"), gi, f"one adapter serves both targets with one array, but the first target is told a grid flattened in "
+                                 f"{lay(got[1].fields['grid'])!r} and the second one in {lay(g_ann)!r} (equal grids may differ in their order): one of them reads the values at wrong locations")
+                    else:
+                        sink.ok("R35", key("second-target"), gi, "a second target with an equal grid in another layout is told the layout the set-up was made for")
+                        _data_path(repo, sink, cname, it, ad, gd, key, "second-target", "src", None, "req", None, None)
             # ---------------------------------------------------------------- same grid on both sides, masked source, unmasked target
             NONE_ = Sym("enum", "Mask", "NONE")
             req, src, gq, gs = infos(req_mask=NONE_)
